@@ -532,16 +532,16 @@ Section First.
               evals G full i true (At (b ++ T)) PFail).
     { intros kw i j k l Hin. destruct (Hk kw Hin) as [Hp Ha]. apply (first_kw_fail b kw i j k l Hb Hp Ha). }
     eapply evals_node_fail; [lk|cbn; reflexivity|]. apply impls_first; [reflexivity|]. cbn [nkids].
-    eapply firsts_miss; [eapply (Hkw _ 9 10 11 12); [cbn; auto 12|lk|eexists _, _; lk|lk|lk]|].
-    eapply firsts_miss; [eapply (Hkw _ 30 31 32 33); [cbn; auto 12|lk|eexists _, _; lk|lk|lk]|].
-    eapply firsts_miss; [eapply (Hkw _ 41 42 43 44); [cbn; auto 12|lk|eexists _, _; lk|lk|lk]|].
-    eapply firsts_miss; [eapply (Hkw _ 49 50 51 52); [cbn; auto 12|lk|eexists _, _; lk|lk|lk]|].
-    eapply firsts_miss; [eapply (Hkw _ 57 58 59 60); [cbn; auto 12|lk|eexists _, _; lk|lk|lk]|].
-    eapply firsts_miss; [eapply (Hkw _ 71 72 73 74); [cbn; auto 12|lk|eexists _, _; lk|lk|lk]|].
-    eapply firsts_miss; [eapply (Hkw _ 84 85 86 87); [cbn; auto 12|lk|eexists _, _; lk|lk|lk]|].
-    eapply firsts_miss; [eapply (Hkw _ 101 102 103 104); [cbn; auto 12|lk|eexists _, _; lk|lk|lk]|].
-    eapply firsts_miss; [eapply (Hkw _ 115 116 117 118); [cbn; auto 12|lk|eexists _, _; lk|lk|lk]|].
-    eapply firsts_miss; [eapply (Hkw _ 189 190 191 192); [cbn; auto 12|lk|eexists _, _; lk|lk|lk]|].
+    eapply firsts_miss; [eapply (Hkw _ 9 10 11 12); cycle 1; [lk|eexists _, _; lk|lk|lk|cbn; auto 12]|].
+    eapply firsts_miss; [eapply (Hkw _ 30 31 32 33); cycle 1; [lk|eexists _, _; lk|lk|lk|cbn; auto 12]|].
+    eapply firsts_miss; [eapply (Hkw _ 41 42 43 44); cycle 1; [lk|eexists _, _; lk|lk|lk|cbn; auto 12]|].
+    eapply firsts_miss; [eapply (Hkw _ 49 50 51 52); cycle 1; [lk|eexists _, _; lk|lk|lk|cbn; auto 12]|].
+    eapply firsts_miss; [eapply (Hkw _ 57 58 59 60); cycle 1; [lk|eexists _, _; lk|lk|lk|cbn; auto 12]|].
+    eapply firsts_miss; [eapply (Hkw _ 71 72 73 74); cycle 1; [lk|eexists _, _; lk|lk|lk|cbn; auto 12]|].
+    eapply firsts_miss; [eapply (Hkw _ 84 85 86 87); cycle 1; [lk|eexists _, _; lk|lk|lk|cbn; auto 12]|].
+    eapply firsts_miss; [eapply (Hkw _ 101 102 103 104); cycle 1; [lk|eexists _, _; lk|lk|lk|cbn; auto 12]|].
+    eapply firsts_miss; [eapply (Hkw _ 115 116 117 118); cycle 1; [lk|eexists _, _; lk|lk|lk|cbn; auto 12]|].
+    eapply firsts_miss; [eapply (Hkw _ 189 190 191 192); cycle 1; [lk|eexists _, _; lk|lk|lk|cbn; auto 12]|].
     eapply firsts_miss; [exact (first_alt_202 b Hb)|].
     eapply firsts_miss; [eapply (first_kw_fail b kw_state 263 264 265 266 Hb Hst eq_refl); [lk|eexists _, _; lk|lk|lk]|].
     eapply firsts_miss; [|apply firsts_nil].
